@@ -478,10 +478,10 @@ func SelfTest() error {
 		return fmt.Errorf("CRAM-MD5 vector: %s", d)
 	}
 	type vec struct {
-		h                                      func() hash.Hash
-		mech, user, pass, cn, suffix, salt     string
-		iter                                   int
-		proof, sig                             string
+		h                                  func() hash.Hash
+		mech, user, pass, cn, suffix, salt string
+		iter                               int
+		proof, sig                         string
 	}
 	vecs := []vec{
 		{sha1.New, "SCRAM-SHA-1", "user", "pencil", "fyko+d2lbbFgONRv9qkxdawL", "3rfcNHYJY1ZVvWVs7j", "QSXCR+Q6sek8bf92", 4096,
